@@ -84,13 +84,18 @@ def run(W, cfg):
     gx = (rnp.arange(newshape[1], dtype=float) - newshape[1] / 2.) / float(s) + shp[1] / 2.
     xx, yy = rnp.meshgrid(gx, gy)
 
-    def interp(arr):
-        out = [[0] * newshape[1] for _ in range(newshape[0])]
-        for idx in rnp.ndindex(*shp):
-            e = rnp.zeros(shp)
+    def interp(arr, shp_in=None):
+        shp_in = shp if shp_in is None else shp_in
+        new_in = (math.ceil(shp_in[0] * s), math.ceil(shp_in[1] * s))
+        gy_ = (rnp.arange(new_in[0], dtype=float) - new_in[0] / 2.) / float(s) + shp_in[0] / 2.
+        gx_ = (rnp.arange(new_in[1], dtype=float) - new_in[1] / 2.) / float(s) + shp_in[1] / 2.
+        xx_, yy_ = rnp.meshgrid(gx_, gy_)
+        out = [[0] * new_in[1] for _ in range(new_in[0])]
+        for idx in rnp.ndindex(*shp_in):
+            e = rnp.zeros(shp_in)
             e[idx] = 1.0
-            w = scipy.ndimage.map_coordinates(e, [yy, xx], order=3, mode='nearest')
-            for o in rnp.ndindex(*newshape):
+            w = scipy.ndimage.map_coordinates(e, [yy_, xx_], order=3, mode='nearest')
+            for o in rnp.ndindex(*new_in):
                 if w[o] != 0.0:
                     out[o[0]][o[1]] = out[o[0]][o[1]] + arr[idx] * float(w[o])
         return out
@@ -108,6 +113,21 @@ def run(W, cfg):
         W.ob('original opd untouched', p.opd, O0)
     else:
         W.ob('scalar opd unchanged', q.opd * 1, O0)
+    if cfg['amp'] == 'array' and cfg['nseg'] == 1:
+        # a plane of another size that rescales to the same number of samples, at the same factor, later in the same process;
+        # and a plane that carries no pixel scale: the sampling grid and the 1/s factor depend on neither
+        for shp2 in ((shp[0] - 1, shp[1]), (shp[0], shp[1] + 1)):
+            if min(shp2) >= 2 and (math.ceil(shp2[0] * s), math.ceil(shp2[1] * s)) == newshape:
+                A2 = W.reals('e', shp2, lo='1/4', hi=1)
+                q2 = lt.Pupil(amplitude=A2, mask=rnp.ones(shp2, dtype=int), pixelscale=px, focal_length=10.0).rescale(sv)
+                W.ob_close(f'a {shp2[0]}x{shp2[1]} plane rescaled afterwards: amplitude = spline interpolation on its own grid, divided by s',
+                           q2.amplitude, W.array(interp(A2, shp2)) / sv, tol)
+                break
+        q3 = lt.Pupil(amplitude=A0, opd=O0, mask=mask.copy(), focal_length=10.0).rescale(sv)
+        W.ob_true('a plane without a pixel scale keeps none', q3.pixelscale is None)
+        W.ob_close('a plane without a pixel scale: amplitude = spline interpolation divided by s', q3.amplitude, W.array(interp(A0)) / sv, tol)
+        q4 = p.rescale(sv)
+        W.ob_close('the first plane rescaled once more gives the same amplitude', q4.amplitude, q.amplitude, tol)
     W.ob_true('original mask untouched', bool((W.concrete(p.mask) == mask).all()))
     W.ob_true('original tilt list untouched', len(p.tilt) == 0)
     if s == 1:
